@@ -56,7 +56,12 @@ def from_be_elems(els):
         return int.from_bytes(bytes(els), "big")
     n = len(els)
     t = z3.Sum([ops.elem_term(e) * (256 ** (n - 1 - i)) for i, e in enumerate(els)]) if n > 1 else ops.elem_term(els[0])
-    return ops.mk(t, 0, 256 ** n - 1, 0)
+    r = ops.mk(t, 0, 256 ** n - 1, 0)
+    if n > 1 and isinstance(r, SInt):
+        # remember the octets: shifts and masks of the word by constants then split octet-wise (as hand-written shifting does)
+        r.parts = tuple(sorted(((8 * (n - 1 - i), 8, e if isinstance(e, int) else SInt(ops.elem_term(e), 0, 255, 0))
+                                for i, e in enumerate(els) if not (isinstance(e, int) and e == 0)), key=lambda x: x[0]))
+    return r
 
 
 def exact_elements(interp, rope, n, exc="struct.error", msg="buffer size mismatch"):
